@@ -65,6 +65,37 @@ var c15Scalars = []c15Scalar{
 	c15MkScalar(c15Level(0), true), c15MkScalar(c15Port(0), true), c15MkScalar(c15Mask(0), true), c15MkScalar(c15Serial(0), true), c15MkScalar(c15Word(0), true),
 	c15MkScalar(c15Ratio(0), true), c15MkScalar(c15Score(0), true), c15MkScalar(c15Phasor(0), true), c15MkScalar(c15Wave(0), true),
 	c15MkScalar(c15Flag(false), true), c15MkScalar(c15Name(""), true),
+	c15LocalInt8(), c15LocalUint16(), c15LocalInt64(), c15LocalFloat32(),
+}
+
+// Function-local types: distinct types that share package path and name ("Level") but not width or kind. A parser
+// must treat each by its own reflect.Type.
+func c15LocalInt8() c15Scalar {
+	type Level int8
+	s := c15MkScalar(Level(0), true)
+	s.name = "Level(local int8)"
+	return s
+}
+
+func c15LocalUint16() c15Scalar {
+	type Level uint16
+	s := c15MkScalar(Level(0), true)
+	s.name = "Level(local uint16)"
+	return s
+}
+
+func c15LocalInt64() c15Scalar {
+	type Level int64
+	s := c15MkScalar(Level(0), true)
+	s.name = "Level(local int64)"
+	return s
+}
+
+func c15LocalFloat32() c15Scalar {
+	type Level float32
+	s := c15MkScalar(Level(0), true)
+	s.name = "Level(local float32)"
+	return s
 }
 
 func c15ScalarsWhere(f func(s c15Scalar) bool) []c15Scalar {
